@@ -246,7 +246,10 @@ fn program(case: &[i128]) -> Option<Prog> {
                 2 => "(&x).zip(y, |p, q| p.wrapping_add(q))",
                 3 => "x.inverted_zip(y, |q, p| p.wrapping_add(q))",
                 4 => "x.inverted_zip2(y, |q, p| p.wrapping_add(q))",
-                _ => "x.inverted_zip2(&y, |q, p| p.wrapping_add(*q))",
+                5 => "x.inverted_zip2(&y, |q, p| p.wrapping_add(*q))",
+                // 6 / 7: an OWNED receiver zipped with a borrowed / mutably borrowed array of the same length
+                6 => "x.zip(&y, |p, q| p.wrapping_add(*q))",
+                _ => "{ let mut y = y; x.zip(&mut y, |p, q| p.wrapping_add(*q)) }",
             };
             lens_fn(
                 "(x, y)",
@@ -470,7 +473,7 @@ fn cases(tier: &str, rng: &mut Rng) -> Vec<Vec<i128>> {
             }
             // the doc-hidden building blocks of zip called directly
             if n <= 3 && k <= 3 {
-                for v in 3..6 {
+                for v in 3..8 {
                     push(8, v, n, k, -1, 0);
                 }
             }
